@@ -17,6 +17,7 @@ import (
 	"encoding/json"
 	"fmt"
 	"os"
+	"strconv"
 	"strings"
 	"time"
 
@@ -92,13 +93,36 @@ func main() {
 			add(sc, fmt.Sprintf("replay-%02d", i))
 		}
 	} else {
-		nPlain, nRace := cfg.N(128, 1600), cfg.N(48, 400)
+		nPlain, nRace := cfg.N(128, 2400), cfg.N(48, 600)
+		// development aid: H_LOG_ONLY=<family> keeps one family, H_LOG_N=<n> scales the list
+		only := os.Getenv("H_LOG_ONLY")
+		if v, err := strconv.Atoi(os.Getenv("H_LOG_N")); err == nil && v > 0 {
+			nPlain, nRace = v, v/3
+		}
 		for i := 0; i < nPlain; i++ {
-			add(genScenario(cfg, i, "plain"), fmt.Sprintf("plain-%04d", i))
+			if sc := genScenario(cfg, i, "plain", ""); only == "" || sc.Family == only {
+				add(sc, fmt.Sprintf("plain-%04d", i))
+			}
 		}
 		if cfg.BinRace != "" {
 			for i := 0; i < nRace; i++ {
-				add(genScenario(cfg, i, "race"), fmt.Sprintf("race-%04d", i))
+				if sc := genScenario(cfg, i, "race", ""); only == "" || sc.Family == only {
+					add(sc, fmt.Sprintf("race-%04d", i))
+				}
+			}
+		}
+		// The shutdown drain is decided by a 10 ms timer inside the writer; the schedule in
+		// which that matters needs the writer to lose the CPU inside a window of about
+		// 100 ns per drained line. Many cheap squeeze cases (short, mostly waiting)
+		// buy reach there that a few long ones cannot.
+		if only == "" || only == "squeeze" {
+			for i := 0; i < nPlain*2; i++ {
+				add(genScenario(cfg, 100000+i, "plain", "squeeze"), fmt.Sprintf("plain-sq%04d", i))
+			}
+			if cfg.BinRace != "" {
+				for i := 0; i < nRace; i++ {
+					add(genScenario(cfg, 100000+i, "race", "squeeze"), fmt.Sprintf("race-sq%04d", i))
+				}
 			}
 		}
 	}
@@ -146,6 +170,9 @@ func main() {
 	}
 	vlib.RunChildren(cfg, specs, func(i int, c *vlib.ChildResult) { handle(i, c, 0) })
 	rep.Count("cases_retried_after_watchdog", int64(retried))
+	if cfg.Replay != "" && rep.NViolations() == 0 {
+		rep.Note("replay: the scenario was re-executed %d times without reproducing; the witness is schedule-dependent (the record in the replay file is the observed history)", len(specs))
+	}
 
 	// floors: quantities the workload reaches by construction
 	n := rep.Counter("cases_plain") + rep.Counter("cases_race")
@@ -199,7 +226,5 @@ func childMain(dir string) {
 	w := runScenario(sc)
 	judge(w, b)
 	b.Finish(dir)
-	if w.stuckAfterShut {
-		os.Exit(0) // blocked goroutines must not keep the process alive
-	}
+	os.Exit(0) // goroutines blocked in the logger must not keep the process alive
 }
